@@ -86,11 +86,15 @@ func runRT(t *vlib.T) {
 	names, srcs, asts := rtNames(t.Thorough()), rtSources(t.Thorough()), rtASTs()
 	for _, src := range srcs {
 		for _, name := range names {
-			big := len(src.s) > 2<<20 || len(name.s) > 2<<20
+			limit := 2 << 20
+			if !t.Thorough() {
+				limit = 512 << 10
+			}
+			big := len(src.s) > limit || len(name.s) > limit
 			for li, lm := range rtLastModified {
 				for ci, ct := range rtCompileTime {
 					for ai, ast := range asts {
-						if big && (li+ci+ai)%3 != 0 { // the 16 MiB+ values: a third of the small dimensions
+						if big && (li+ci+ai)%3 != 0 { // the largest values (quick: >512 KiB, thorough: >2 MiB): a third of the small dimensions
 							continue
 						}
 						if t.Stopped() {
@@ -393,11 +397,15 @@ func usesHelpers(src string) bool {
 
 func rdCase(src string, c cfg, way string, helpersCompiled bool, name string) *vlib.Outcome {
 	o := &vlib.Outcome{Counters: map[string]int64{}}
-	dir, err := os.MkdirTemp("", "verif-c16-")
-	if err != nil {
-		panic("harness: " + err.Error())
+	dir := ""
+	if way == "loader" { // a private directory per case
+		d, err := os.MkdirTemp("", "verif-c16-")
+		if err != nil {
+			panic("harness: " + err.Error())
+		}
+		defer os.RemoveAll(d)
+		dir = d
 	}
-	defer os.RemoveAll(dir)
 
 	// reference: an engine that was given the sources
 	reference := func() (want result) {
